@@ -111,7 +111,8 @@ def gen_cases(tier, seed):
         else:
             ast = outlines.random_ast(rng, rng.randint(1, 3), max_body=4)
             preds = [rng.random() < 0.6 for _ in range(rng.randint(0, 10))]
-            rets = [rng.choice([None] * 14 + [0, 7, 'r']) for _ in range(rng.randint(0, 12))]
+            # ('@WAIT': the step returns a plain wait command -- the chain is resumed from outside and goes on with its outline)
+            rets = [rng.choice([None] * 12 + ['@WAIT', '@WAIT'] + [0, 7, 'r']) for _ in range(rng.randint(0, 12))]
         trace, _res, how = outlines.interpret(ast, preds, rets, max_calls=80)
         if how == 'budget':
             continue
